@@ -236,7 +236,7 @@ Inductive out :=
 | OStart (i a p : Z)                       (* rpc_handler.send_start_process(identifier, namespec, _) *)
 | OStop (i a p : Z)                        (* rpc_handler.send_stop_process(identifier, namespec) *)
 | OForced (a p : Z) (fs : pstate) (reason : Z) (target : option Z)
-   (* entry of listener.force_process_state; reason 0 = 'No resource available', otherwise the code of the
+   (* entry of listener.force_process_state; reason -1 = 'No resource available', otherwise the code of the
       process state whose event was "not received in time" *)
 | OPub (a p : Z) (fs : pstate) (accepted : bool).
    (* rpc_handler.send_process_state_event(forced payload) to the other instances, sent after the local
@@ -617,7 +617,7 @@ Definition step_aj_group (jid : Z) (group : list Z) : M R :=
             | None =>
                 do s <- mget ;;
                 do _ <- put_cmd c1 ;;
-                ret ([Force (c_app c) (c_proc c) None (s_now s) FATAL 0;
+                ret ([Force (c_app c) (c_proc c) None (s_now s) FATAL (-1);
                       ProcFailure jid (c_app c) (c_proc c); AJGroup jid rest], [])
             end
           else ret ([AJGroup jid rest], [])
